@@ -346,7 +346,8 @@ def read_hookmap(hm):
     """[(point, cbref, priority value, failsafe value, kwargs dict)] in attachment order per point."""
     out = []
     for p, name in enumerate(POINTS):
-        for h in (hm.get(name, []) if isinstance(hm, dict) else []):
+        lst = hm.get(name, []) if isinstance(hm, dict) else []
+        for h in (lst if isinstance(lst, (list, tuple)) else []):
             out.append((p, _probe_id(getattr(h, 'callback', None)), getattr(h, 'priority', None),
                         getattr(h, 'failsafe', None), getattr(h, 'kwargs', None)))
     return out
@@ -633,18 +634,49 @@ def _apply_reqopt(plan, app, inst):
         inst.undo.append(lambda: cherrypy.engine.unsubscribe('after_request', _failing_listener))
 
 
+class DeclarationRejected(Exception):
+    """The code under test raised while the application was being put together (Tool(...), Hook(...), the
+    decorator, Application config): an observation, not a harness error."""
+
+
+def _install_guarded(plan, app, inst):
+    try:
+        return install(plan, app, inst)
+    except common.HarnessError:
+        raise
+    except Exception as e:     # noqa: BLE001
+        raise DeclarationRejected('%s: %s' % (type(e).__name__, e))
+
+
+def _empty_snapshot(why):
+    return {'page': None, 'hooks': [], 'config': None, 'lean': None, 'toolmaps': None, 'er': None,
+            'unmodelled': why, 'sorted': {}}
+
+
 def run_real(plan):
     """pipeline_common.run_real plus what the Request objects ended up with."""
     inst = Installed()
     try:
-        obs = pc.run_real(plan, app_wrapper=lambda app: install(plan, app, inst))
+        try:
+            obs = pc.run_real(plan, app_wrapper=lambda app: _install_guarded(plan, app, inst))
+        except DeclarationRejected as e:
+            return {'j': [], 'starts': [], 'chunks': [], 'escaped': None, 'reqs': [], 'sites': [],
+                    'chunk_before_start': False, 'snaps': [], 'cls_after': [], 'rejected': str(e)}
         snaps = []
         for rq in inst.reqs:
-            s = snapshot(rq, inst, plan)
-            s['sorted'] = real_sorted(rq)
+            try:
+                s = snapshot(rq, inst, plan)
+                s['sorted'] = real_sorted(rq)
+            except common.HarnessError:
+                raise
+            except Exception as e:     # noqa: BLE001 - a request object the code under test left in an odd state
+                s = _empty_snapshot('request could not be read back: %r' % (e,))
             snaps.append(s)
+        # pipeline_common creates one more entry per Request object than we may have seen (Runaway): align
+        while len(snaps) < len(obs['reqs']):
+            snaps.append(_empty_snapshot('request object not seen'))
         obs['snaps'] = snaps
-        obs['cls_after'] = read_hookmap(inst.cls_map)
+        obs['cls_after'] = read_hookmap(getattr(inst, 'cls_map', None))
     finally:
         inst.cleanup()
     return obs
